@@ -66,6 +66,15 @@ fn run_case(w: &mut Worker, i: u64) -> CaseOut {
         big_delegated: r.chance(1, 4),
     };
     let mut spec = gen_spec(&mut r, &opts);
+    // one case in three (library path): a top-level target whose name needs resolution - it is listed
+    // under the raw name, requested and stored under the resolved one
+    let mut needs_resolution = false;
+    if !cli && r.chance(1, 3) {
+        if let Some(t) = spec.targets.iter_mut().find(|t| name_class(&t.name) == "inert" && !t.name.contains('/')) {
+            t.name = format!("zz-res/../{}", t.name);
+            needs_resolution = true;
+        }
+    }
     let nroots = 1 + r.below(3);
     spec.root_version = nroots;
     let mut built = build(&spec);
@@ -128,7 +137,8 @@ fn run_case(w: &mut Worker, i: u64) -> CaseOut {
         None
     };
     if let Some(c) = corrupt {
-        let fname = if spec.consistent { format!("{}.{}", sha256_hex(&c.content), c.name) } else { c.name.clone() };
+        let cname = crate::specgen::requested_name(&c.name);
+        let fname = if spec.consistent { format!("{}.{}", sha256_hex(&c.content), cname) } else { cname };
         if let Some(k) = url_key(crate::memtransport::TARGETS_BASE, &fname) {
             t.set_fault(&k, if c.content.is_empty() { Fault::Extend(3) } else { Fault::FlipBit(c.content.len() * 4) });
         }
@@ -307,6 +317,9 @@ fn run_case(w: &mut Worker, i: u64) -> CaseOut {
     }
     out.h(format!("subset={}", match &subset { None => "all".to_string(), Some(s) if s.is_empty() => "empty".into(), Some(_) => "some".into() }));
     out.h(format!("consistent={}", spec.consistent));
+    if needs_resolution {
+        out.h(format!("target-name-needs-resolution:consistent={}", spec.consistent));
+    }
     out.h(format!("roots={nroots}"));
     out.h(format!("delegation-depth={}", opts.max_depth.min(3)));
     let nd = all_delegs(&spec).len();
